@@ -138,6 +138,11 @@ def read_definitions(
     _direct: set[CompositeType] = set()
     _transitive: set[CompositeType] = set()
     _file_pool: dict[Path, ReadableDSDLFile] = {}
+    # The same file may be listed both as a target and as a lookup definition, by two distinct objects.
+    # Let both lists refer to one object per file, otherwise a target that is also a dependency of another target
+    # is parsed twice (once through each object) and its @print directives are evaluated twice.
+    targets_by_path = {t.file_path: t for t in target_definitions if isinstance(t, ReadableDSDLFile)}
+    lookup_definitions = [targets_by_path.get(d.file_path, d) for d in lookup_definitions]
     _read_definitions(
         target_definitions,
         lookup_definitions,
